@@ -1,13 +1,193 @@
 /-
-Oracle ops for the `disp` family.  Owned by the slice that models it; see AGENT_GUIDE.md.
+Oracle ops for the `disp` family (C17): which representation the model of
+makeMethodArshaler / typedArshalers.lookup / DepthLength policing chooses.
+
+  disp m <ms4> <legacy> <forced> <dfltOk> <levels> <fns> <behaviours>      marshal
+  disp u <ms3> <legacy> <forced> <dfltOk> <levels> <fns> <behaviours>      unmarshal
+  disp d …   the same two with the DOCUMENTED order instead of the composed wrappers (md / ud)
+  disp police <prefix-ops> <script> <ret>                                  one policed call
+
+  ms       digits 0 absent, 1 value receiver, 2 pointer receiver (To J A T / From U Tx)
+  levels   comma separated  code[:prefix-ops[:input-kind]]   code: c container, i interface, z nil interface,
+           p pointer, n nil pointer, b the type T;  input-kind (unmarshal): n null, s string, l other scalar, c composite
+  fns      comma separated  <F|T><v|p|i|a|o>  (F: MarshalFunc/UnmarshalFunc, T: MarshalToFunc/UnmarshalFromFunc) or -
+  behaviours  comma separated  id=ops/ret[|ops/ret…] (coder style; one script per level or one for all)
+              or id=str|val|unsup|err|bad (bytes/text style);  ids F<i>, To J A T From U Tx;  missing = done
+  ops      l literal/number, s string, v complete non-string value, O { , o } , A [ , a ]
+answer:    <trace> <outcome>     trace: comma separated F<i>@<level> / method names, or -
+                                 outcome: ok:<winner> | err      winner: F<i>@<level>, method name, D, null
 -/
 import JsonV.Oracle.Util
+import JsonV.Model.Dispatch
 
 namespace JsonV.Oracle.Disp
-open JsonV JsonV.Oracle
+open JsonV JsonV.Model JsonV.Model.Dispatch JsonV.Oracle
+
+def maxDepth : Nat := 10000
+
+def opOfChar : Char → Option Op
+  | 'l' => some .lit
+  | 's' => some .str
+  | 'v' => some .val
+  | 'O' => some .pushO
+  | 'o' => some .popO
+  | 'A' => some .pushA
+  | 'a' => some .popA
+  | _ => none
+
+def opsOfString (s : String) : Option (List Op) :=
+  if s == "-" then some [] else s.toList.mapM opOfChar
+
+def recvOfChar : Char → Option Recv
+  | '0' => some .absent
+  | '1' => some .value
+  | '2' => some .pointer
+  | _ => none
+
+def retOfString : String → Option Ret
+  | "nil" => some .nil
+  | "unsup" => some .unsupported
+  | "err" => some .other
+  | _ => none
+
+def parseLevel (forced dfltOk : Bool) (s : String) : Option Level :=
+  let parts := s.splitOn ":"
+  let code := parts.getD 0 ""
+  let pre := parts.getD 1 ""
+  let kind := parts.getD 2 ""
+  match opsOfString (if pre == "" then "-" else pre) with
+  | none => none
+  | some pre =>
+    let base : Level := { kind := .base, pre := pre, dfltOk := dfltOk, forcedAddr := forced,
+                          inNull := kind == "n", inStr := kind == "s" }
+    match code with
+    | "b" => some base
+    | "c" => some { base with kind := .cont }
+    | "p" => some { base with kind := .ptr }
+    | "n" => some { base with kind := .ptr, isNil := true }
+    | "i" => some { base with kind := .iface }
+    | "z" => some { base with kind := .iface, isNil := true }
+    | _ => none
+
+def parseList {α} (f : String → Option α) (s : String) : Option (List α) :=
+  if s == "-" then some [] else (s.splitOn ",").mapM f
+
+def parseFn (s : String) : Option (Bool × Target) :=
+  match s.toList with
+  | [k, t] =>
+    let tgt : Option Target := match t with
+      | 'v' => some .val | 'p' => some .ptr | 'i' => some .iface | 'a' => some .any | 'o' => some .other | _ => none
+    match k, tgt with
+    | 'F', some t => some (false, t)
+    | 'T', some t => some (true, t)
+    | _, _ => none
+  | _ => none
+
+def indexFns : Nat → List (Bool × Target) → List FnSpec
+  | _, [] => []
+  | i, (sk, t) :: rest => { id := i, target := t, maySkip := sk } :: indexFns (i + 1) rest
+
+/-- One behaviour entry: either scripts (per level) or a class. -/
+inductive BehSpec where
+  | scripts (ss : List (List Op × Ret))
+  | cls (c : String)
+
+def parseScript (s : String) : Option (List Op × Ret) :=
+  match s.splitOn "/" with
+  | [ops, ret] => match opsOfString (if ops == "" then "-" else ops), retOfString ret with
+    | some o, some r => some (o, r)
+    | _, _ => none
+  | _ => none
+
+def parseBeh (s : String) : Option (String × BehSpec) :=
+  match s.splitOn "=" with
+  | [id, spec] =>
+    if spec.contains '/' then
+      match (spec.splitOn "|").mapM parseScript with
+      | some ss => some (id, .scripts ss)
+      | none => none
+    else some (id, .cls spec)
+  | _ => none
+
+def candName : Cand → String
+  | .fn i _ => s!"F{i}"
+  | .meth .to _ => "To"
+  | .meth .js _ => "J"
+  | .meth .ap _ => "A"
+  | .meth .tx _ => "T"
+  | .meth .frm _ => "From"
+  | .meth .uj _ => "U"
+  | .meth .utx _ => "Tx"
+
+def mkBehav (behs : List (String × BehSpec)) : Behav := fun c m =>
+  match behs.lookup (candName c) with
+  | none => .done
+  | some (.cls k) =>
+    if k == "str" then .done
+    else if k == "val" then (if m.last.needObjectName then .fail else .done)
+    else if k == "unsup" then .skip
+    else .fail
+  | some (.scripts ss) =>
+    let pick := if ss.length == 1 then ss.head? else ss[c.lvl]?
+    match pick with
+    | some (ops, ret) => userCall maxDepth m ops ret
+    | none => .fail
+
+def showCand : Cand → String
+  | .fn i l => s!"F{i}@{l}"
+  | c => candName c
+
+def showOutcome (o : Outcome) : String :=
+  let tr := if o.trace.isEmpty then "-" else ",".intercalate (o.trace.map showCand)
+  let r := match o.res with
+    | .err => "err"
+    | .ok (.cand c) => "ok:" ++ showCand c
+    | .ok (.dflt _) => "ok:D"
+    | .ok (.null _) => "ok:null"
+  tr ++ " " ++ r
+
+def handleDispatch (dir : String) (documented : Bool) (args : List String) : String :=
+  match args with
+  | [ms, legacy, forced, dfltOk, levels, fns, behs] =>
+    match ms.toList.mapM recvOfChar, parseList (parseLevel (forced == "1") (dfltOk == "1")) levels,
+          parseList parseFn fns, parseList parseBeh behs with
+    | some rs, some lvls, some fs, some bs =>
+      let fl := indexFns 0 fs
+      let beh := mkBehav bs
+      let leg := legacy == "1"
+      match dir, rs with
+      | "m", [a, b, c, d] =>
+        let mset : MethodSet := ⟨a, b, c, d⟩
+        showOutcome (if documented then documentedMarshal maxDepth mset fl beh lvls 0 Machine.init
+                     else marshalLevels maxDepth mset fl beh leg lvls 0 Machine.init)
+      | "u", [a, b, c] =>
+        let mset : UMethodSet := ⟨a, b, c⟩
+        showOutcome (if documented then documentedUnmarshal maxDepth mset fl beh lvls 0 Machine.init
+                     else unmarshalLevels maxDepth mset fl beh leg lvls 0 Machine.init)
+      | _, _ => badArgs
+    | _, _, _, _ => badArgs
+  | _ => badArgs
+
+def showResult : CallResult → String
+  | .done => "done"
+  | .skip => "skip"
+  | .fail => "fail"
 
 def handle (op : String) (args : List String) : String :=
   match op, args with
+  | "m", _ => handleDispatch "m" false args
+  | "u", _ => handleDispatch "u" false args
+  | "md", _ => handleDispatch "m" true args
+  | "ud", _ => handleDispatch "u" true args
+  | "police", [pre, script, ret] =>
+    match opsOfString pre, opsOfString script, retOfString ret with
+    | some p, some s, some r =>
+      match runScript maxDepth p Machine.init with
+      | (m, none) =>
+        let after := (runScript maxDepth s m).1
+        s!"{showResult (userCall maxDepth m s r)} {m.depthLength.1} {m.depthLength.2} {after.depthLength.1} {after.depthLength.2}"
+      | (_, some _) => "ERR bad-prefix"
+    | _, _, _ => badArgs
   | _, _ => "ERR unimplemented"
 
 end JsonV.Oracle.Disp
